@@ -47,7 +47,7 @@ def alphabet(kind, reduced=False):
                 out.append((cc, mc, p, False))
     for cc in (["lacks"] if reduced else ["blank", "lacks"]):
         for mc in mvr_cs:
-            for p in pools:
+            for p in (pools if reduced else pools + ["Pu"]):  # "Pu": a phantom labelled with the pooled batch P but not itself pooled
                 out.append((cc, mc, p, True))
     return out
 
@@ -64,7 +64,7 @@ def build_cards(kind, cards, pooled=("P", "Q")):
             votes[CID] = dict(cont[cc])
         if ph:
             votes = {CID: {}} if cc == "blank" else {}
-        cvrs.append(CVR(id=f"card{i}", votes=votes, phantom=ph, tally_pool=p, pool=(p in pooled), sample_num=i + 1))
+        cvrs.append(CVR(id=f"card{i}", votes=votes, phantom=ph, tally_pool=("P" if p == "Pu" else p), pool=(p in pooled), sample_num=i + 1))
         if mc == "unfindable":
             mvrs.append(CVR(id=f"card{i}", votes={}, phantom=True))
         else:
